@@ -4,6 +4,7 @@ import (
 	"context"
 	"errors"
 	"fmt"
+	"math"
 	"os"
 	"runtime"
 	"runtime/debug"
@@ -39,7 +40,7 @@ import (
 // the graph as key; the rest of that case is skipped. (The Go runtime's own "all goroutines
 // are asleep" report cannot be used: it never fires in a cgo-enabled binary.) Non-termination
 // by unbounded walking is turned into a counted observation by the datasource's call budget.
-// The supervisor watchdog (HangSeconds) and CrashIsViolation (stack overflow of an unbounded
+// The supervisor watchdog (HangSeconds, inconclusive only) and CrashIsViolation (stack overflow of an unbounded
 // recursion, library panic) are the backstops.
 
 const c14Pkg = "github.com/paulmach/osm/annotate"
@@ -213,17 +214,57 @@ func c14ExhCount(n int) int64 {
 	return t
 }
 
+// c14WideIDs are the relation ids of layout 3: any non-zero int64 is a legal id for the
+// ordering (negative placeholder ids of editors / osmChange uploads, ids beyond the 40 bits a
+// packed FeatureID can hold).
+var c14WideIDs = []osm.RelationID{1 << 40, -7, 1<<62 + 3, math.MinInt64 + 1}
+
+// c14Magnitude draws an id from one of the magnitude classes; never 0.
+func c14Magnitude(r *gen.R) int64 {
+	k := r.Int64Range(1, 40)
+	switch r.Intn(11) {
+	case 0:
+		return k
+	case 1:
+		return 1<<31 + k
+	case 2:
+		return 1<<32 + k
+	case 3:
+		return 1<<40 - 1
+	case 4:
+		return 1 << 40
+	case 5:
+		return 1<<40 + k
+	case 6:
+		return 1<<62 + k
+	case 7:
+		return -k
+	case 8:
+		return -(1<<40 + k)
+	case 9:
+		return math.MinInt64 + 1
+	}
+	return -(1<<62 + k)
+}
+
 // c14ExhGraph decodes enumerated graph number gi on n relations (ids 1..n). layout 0: one
 // version, members ascending; 1: one version, members descending; 2: one member per version
 // (ascending), preceded by a version holding way and node members that carry the number of
-// every relation of the graph (they are never edges).
+// every relation of the graph (they are never edges); 3: as 0 with the ids c14WideIDs instead
+// of 1..n.
 func c14ExhGraph(n int, gi int64, layout int) *c14Graph {
 	base := int64(1 + (1 << uint(n)))
 	g := &c14Graph{shape: "exh" + strconv.Itoa(n) + "l" + strconv.Itoa(layout)}
+	idOf := func(i int) osm.RelationID {
+		if layout == 3 {
+			return c14WideIDs[i]
+		}
+		return osm.RelationID(i + 1)
+	}
 	for i := 0; i < n; i++ {
 		d := gi % base
 		gi /= base
-		nd := c14Node{id: osm.RelationID(i + 1)}
+		nd := c14Node{id: idOf(i)}
 		if d == 0 {
 			nd.missing = true
 			g.nodes = append(g.nodes, nd)
@@ -233,11 +274,11 @@ func c14ExhGraph(n int, gi int64, layout int) *c14Graph {
 		var ms osm.Members
 		for j := 0; j < n; j++ {
 			if mask>>uint(j)&1 == 1 {
-				ms = append(ms, c14Rel(osm.RelationID(j+1)))
+				ms = append(ms, c14Rel(idOf(j)))
 			}
 		}
 		switch layout {
-		case 0:
+		case 0, 3:
 			nd.versions = []osm.Members{ms}
 		case 1:
 			for a, b := 0, len(ms)-1; a < b; a, b = a+1, b-1 {
@@ -272,10 +313,10 @@ func c14RandGraph(r *gen.R, maxN int) *c14Graph {
 	if shape == "complete" && n > 5 {
 		n = r.Range(2, 5)
 	}
-	// distinct positive ids
+	// distinct non-zero ids
 	ids := make([]osm.RelationID, 0, n+3)
 	used := map[osm.RelationID]bool{}
-	style := r.Intn(3)
+	style := r.Pick(0, 1, 2, 3, 3)
 	newID := func() osm.RelationID {
 		for {
 			var v int64
@@ -284,6 +325,8 @@ func c14RandGraph(r *gen.R, maxN int) *c14Graph {
 				v = r.Int64Range(1, 40)
 			case 1:
 				v = r.Int64Range(1, 2_000_000)
+			case 3:
+				v = c14Magnitude(r) // magnitudes mixed within one graph
 			default:
 				if r.Bool() {
 					v = r.Int64Range(1<<33, 1<<40)
@@ -418,6 +461,8 @@ func c14RandGraph(r *gen.R, maxN int) *c14Graph {
 				ref := r.Int64Range(1, 50)
 				if r.Bool() {
 					ref = int64(ids[r.Intn(n)])
+				} else if style == 3 && r.Bool() {
+					ref = c14Magnitude(r)
 				}
 				t := osm.TypeWay
 				if r.Bool() {
@@ -752,7 +797,6 @@ func (x *c14X) run(s *c14Scn) c14Out {
 // stuck polls the goroutine states of a scenario that has not finished. It returns "" when the
 // scenario finished meanwhile, "deadlock" with the blocked goroutines, or "runnable".
 func (x *c14X) stuck(st *c14State) (string, []string) {
-	x.res.Add("goroutine_dumps_inspected", 1)
 	stable, last := 0, st.progress()
 	for i := 0; i < 600; i++ {
 		if st.done.Load() {
@@ -763,6 +807,11 @@ func (x *c14X) stuck(st *c14State) (string, []string) {
 			d = 10
 		}
 		time.Sleep(time.Duration(d) * 200 * time.Microsecond)
+		if p := st.progress(); p != last || st.done.Load() {
+			stable, last = 0, p // it moves (a loaded machine, a sleeping datasource): no dump needed
+			continue
+		}
+		x.res.Add("goroutine_dumps_inspected", 1)
 		var gs []string
 		for _, b := range mon.Goroutines(c14Pkg) {
 			if !x.isLeaked(c14GoroutineID(b)) {
@@ -1246,6 +1295,9 @@ func c14Cases(tier string, seed uint64) []fw.Case {
 		for _, layout := range layouts {
 			for from, b := int64(0), 0; from < total; from, b = from+batch, b+1 {
 				for _, kind := range []string{"exh-full", "exh-stop"} {
+					if n == 4 && layout == 3 && kind == "exh-stop" {
+						continue // id magnitudes matter to the walk, not to stopping it
+					}
 					// enumerated part: independent of VERIF_SEED
 					cs = append(cs, fw.Case{Kind: kind, Variant: variant, Seed: 0,
 						P: map[string]int64{"n": int64(n), "layout": int64(layout), "from": from, "count": batch, "procs": []int64{0, 2, 1, 4}[(b+layout)%4]}})
@@ -1261,12 +1313,12 @@ func c14Cases(tier string, seed uint64) []fw.Case {
 			}
 		}
 	}
-	all := []int{0, 1, 2}
+	all := []int{0, 1, 2, 3}
 	exh(1, 8, "", all)
 	exh(2, 32, "", all)
 	if tier == "thorough" {
 		exh(3, 256, "", all)
-		exh(4, 768, "", all)
+		exh(4, 256, "", all)
 		rnd(10000, 50, "", "c14rand")
 		exh(2, 32, "race", []int{0})
 		exh(3, 256, "race", all)
@@ -1283,10 +1335,10 @@ func init() {
 		ID:    "C14",
 		Level: "exploration",
 		Rule: "Enumerated part: every reference graph on n relations (ids 1..n) in which each relation either has no history or has any of the 2^n sets of relation members, self included " +
-			"(n<=3 in quick: 3+25+729 graphs; n=4 added in thorough: 83 521 graphs, which contain all 65 536 digraphs with self-loops), each in three member layouts (ascending, descending, one relation member per version behind a version of way/node members numbered like the relations), " +
+			"(n<=3 in quick: 3+25+729 graphs; n=4 added in thorough: 83 521 graphs, which contain all 65 536 digraphs with self-loops), each in four layouts (ascending, descending, one relation member per version behind a version of way/node members numbered like the relations, ascending with the ids 2^40, -7, 2^62+3, MinInt64+1 instead of 1..n), " +
 			"each iterated undisturbed for every ordered selection of its ids (all subsets, all orders, plus requests naming an id twice), and swept with Close / cancel / cancel-without-further-Next after every j=0..len+1 Next calls, " +
 			"cancel before creation, and cancel or failure inside every datasource call. Random part: PRNG graphs of 1..14 relations with histories (+<=3 ids without), 12 shapes (DAGs, chain, tree, island cycle, sparse/dense cyclic, ring, self-loops, complete), " +
-			"1-4 versions with different members, node/way members whose refs equal relation ids, refs to relations without history; request lists: all / reversed / random orders, random subsets with unknown, history-less and repeated ids, every order of a 3-subset. " +
+			"ids small, medium, up to 2^40 or of mixed magnitude within one graph (small, >2^31, >2^32, 2^40-1, 2^40, 2^40+k, 2^62+k, negative small and large, MinInt64+1; never 0), 1-4 versions with different members, node/way members whose refs equal relation ids, refs to relations without history; request lists: all / reversed / random orders, random subsets with unknown, history-less and repeated ids, every order of a 3-subset. " +
 			"Schedule perturbation (Gosched / spinning / 30us sleeps in the datasource or the consumer, GOMAXPROCS 1,2,4,default) never feeds a verdict. " +
 			"One evaluation = one iteration (scenario). A signature is (stop kind, acyclic-with-pairs | flat | cyclic as seen from the requests, size classes of scope / request list / emitted sequence, repeated or history-less ids requested, enumerated or random graph); " +
 			"it is listed once per case, so the histogram counts cases, not scenarios; iterations whose requests name no relation with a history are trivial.",
@@ -1301,11 +1353,15 @@ func init() {
 			"Err() and CompletedIndex are read but never asserted; race reports are informational (RaceIsViolation=false); the one seen on the unchanged library is Next (order.go:88) reading o.err while the walker stores it (order.go:63) when a walk is cut short by cancellation or a datasource error",
 			"a crash of a case is a violation because the only expected crash causes are the runtime's own deadlock report (only possible where the in-process state check does not apply) and a stack overflow from an unbounded walk",
 		},
-		Cases:            c14Cases,
-		Exec:             c14Exec,
-		Workers:          16,
-		HangSeconds:      60,
-		HangIsViolation:  true,
+		Cases:   c14Cases,
+		Exec:    c14Exec,
+		Workers: 16,
+		// Backstop only: "never ends" is decided in-process from goroutine states (see run). On
+		// an overloaded machine the watchdog has fired on cases that were merely slow, and its
+		// dump classification took the harness' own runtime.Stack (semacquire) for "blocked";
+		// a watchdog hit is therefore inconclusive for C14, never a violation.
+		HangSeconds:      300,
+		HangIsViolation:  false,
 		CrashIsViolation: true,
 		RaceIsViolation:  false,
 		Exhaustive:       func(tier string) bool { return true },
